@@ -1993,7 +1993,11 @@ func Now(scope *ReferenceScope, fn parser.Function, args []value.Primary) (value
 }
 
 func JsonObject(ctx context.Context, scope *ReferenceScope, fn parser.Function) (value.Primary, error) {
-	if len(scope.Records) < 1 {
+	if len(scope.Records) < 1 || !scope.Records[0].IsInRange() {
+		return value.NewNull(), nil
+	}
+	if scope.Records[0].view.RecordSet[scope.Records[0].recordIndex].GroupLen() < 1 {
+		// the one group of an aggregate query over a table without records: there is no record to build an object from
 		return value.NewNull(), nil
 	}
 
